@@ -17,8 +17,14 @@ Proof. induction sel as [|r t IH]; intro id; cbn [fresh_msgs length]; [reflexivi
 Lemma fresh_msgs_len : forall sel id, zlen (fresh_msgs id sel) = zlen sel.
 Proof. intros. unfold zlen. rewrite fresh_msgs_length. reflexivity. Qed.
 
+Lemma nodup_app_r : forall A (a b : list A), NoDup (a ++ b) -> NoDup b.
+Proof. induction a as [|x a IH]; cbn [app]; intros b H; [assumption|]. inversion H; subst. apply IH. assumption. Qed.
+
 Section C20.
-Variable hash : N -> N.
+Variable hash : N -> option N.
+Variable fx : codefacts.
+(* the de-duplication key MessageHashesMap works with *)
+Notation key := (dkey hash fx).
 
 Definition knownb (h : N) (hs : list (N * N)) : bool := existsb (fun e => N.eqb (snd e) h) hs.
 Lemma knownb_in : forall h hs, knownb h hs = true <-> exists id, In (id, h) hs.
@@ -28,29 +34,53 @@ Proof.
   - intros (id & Hin). exists (id, h). split; [assumption | cbn [snd]; apply N.eqb_refl].
 Qed.
 
-(* the invariant between the rows of the recovery mailbox R and the hash map H *)
+(* the hashes of the rows that have one *)
+Definition row_hashes (r : row) : list N := match key (row_lit r) with Some h => [h] | None => [] end.
+Definition hashes_of (R : list row) : list N := flat_map row_hashes R.
+Definition entry_of (id lit : N) : list (N * N) := match key lit with Some h => [(id, h)] | None => [] end.
+
+(* the invariant between the rows of the recovery mailbox R and the hash map H; rows whose literal has no hash
+   (GetMessageHash fails) take no part in it: they have no entry and are never de-duplicated *)
 Record wfC2 (R : list row) (H : list (N * N)) : Prop := mkWfC {
-  c_entry : forall id h, In (id, h) H -> exists u lit, In (u, (id, lit)) R /\ h = hash lit;
-  c_known : forall r, In r R -> knownb (hash (row_lit r)) H = true;
-  c_nodup : NoDup (map (fun r => hash (row_lit r)) R)
+  c_entry : forall id h, In (id, h) H -> exists u lit, In (u, (id, lit)) R /\ key lit = Some h;
+  c_known : forall r h, In r R -> key (row_lit r) = Some h -> knownb h H = true;
+  c_nodup : NoDup (hashes_of R)
 }.
 Definition wfC (s : store) : Prop := wfC2 (rec_rows s) (s_hashes s).
 
-Lemma nodup_map_inj : forall A B (f : A -> B) l a b, NoDup (map f l) -> In a l -> In b l -> f a = f b -> a = b.
+Lemma in_hashes_of : forall R h, In h (hashes_of R) <-> exists r, In r R /\ key (row_lit r) = Some h.
 Proof.
-  intros A B f. induction l as [|x t IH]; intros a b Hn Ha Hb E; [contradiction|].
-  cbn [map] in Hn. inversion Hn as [|? ? Hx Ht]; subst.
-  destruct Ha as [<-|Ha]; destruct Hb as [<-|Hb]; try reflexivity.
-  - exfalso. apply Hx. rewrite E. apply in_map. assumption.
-  - exfalso. apply Hx. rewrite <- E. apply in_map. assumption.
-  - apply IH; assumption.
+  intros R h. unfold hashes_of. rewrite in_flat_map. split; intros (r & Hr & E); exists r; split; try assumption.
+  - unfold row_hashes in E. destruct (key (row_lit r)); [destruct E as [<-|[]]; reflexivity | contradiction].
+  - unfold row_hashes. rewrite E. left. reflexivity.
 Qed.
-Lemma nodup_map_filter : forall A B (f : A -> B) (k : A -> bool) l, NoDup (map f l) -> NoDup (map f (filter k l)).
+Lemma hashes_of_app : forall a b, hashes_of (a ++ b) = hashes_of a ++ hashes_of b.
+Proof. intros. unfold hashes_of. apply flat_map_app. Qed.
+Lemma nodup_hashes_inj : forall R a b h, NoDup (hashes_of R) -> In a R -> In b R ->
+  key (row_lit a) = Some h -> key (row_lit b) = Some h -> a = b.
 Proof.
-  intros A B f k. induction l as [|x t IH]; cbn [filter map]; intro H; [constructor|].
-  inversion H as [|? ? Hx Ht]; subst. destruct (k x); cbn [map]; [|apply IH; assumption].
-  constructor; [|apply IH; assumption]. intro Hin. apply Hx. apply in_map_iff in Hin. destruct Hin as (y & E & Hy).
-  apply filter_In in Hy. destruct Hy. rewrite <- E. apply in_map. assumption.
+  induction R as [|x t IH]; intros a b h Hn Ha Hb Ea Eb; [contradiction|].
+  change (hashes_of (x :: t)) with (row_hashes x ++ hashes_of t) in Hn.
+  assert (Ht : NoDup (hashes_of t)) by (apply nodup_app_r in Hn; assumption).
+  assert (Hx : forall y, In y t -> key (row_lit x) = Some h -> key (row_lit y) = Some h -> False).
+  { intros y Hy E1 E2. unfold row_hashes in Hn. rewrite E1 in Hn. cbn [app] in Hn. inversion Hn as [|? ? N1 _]; subst.
+    apply N1. apply in_hashes_of. exists y. split; assumption. }
+  destruct Ha as [<-|Ha]; destruct Hb as [<-|Hb]; try reflexivity.
+  - exfalso. eapply Hx; eassumption.
+  - exfalso. eapply Hx; eassumption.
+  - eapply IH; eassumption.
+Qed.
+Lemma nodup_hashes_filter : forall (k : row -> bool) R, NoDup (hashes_of R) -> NoDup (hashes_of (filter k R)).
+Proof.
+  intros k. induction R as [|x t IH]; cbn [filter]; intro H; [constructor|].
+  change (hashes_of (x :: t)) with (row_hashes x ++ hashes_of t) in H.
+  assert (Ht : NoDup (hashes_of t)) by (apply nodup_app_r in H; assumption).
+  destruct (k x); [|apply IH; assumption].
+  change (hashes_of (x :: filter k t)) with (row_hashes x ++ hashes_of (filter k t)).
+  unfold row_hashes in *. destruct (key (row_lit x)) as [h|]; cbn [app] in *; [|apply IH; assumption].
+  inversion H as [|? ? N1 _]; subst. constructor; [|apply IH; assumption].
+  intro Hin. apply N1. apply in_hashes_of in Hin. destruct Hin as (r & Hr & E). apply filter_In in Hr. destruct Hr.
+  apply in_hashes_of. exists r. split; assumption.
 Qed.
 
 Lemma wfC2_remove : forall R H ids, wfC2 R H -> wfC2 (keep_rows ids R) (keep_hashes ids H).
@@ -59,55 +89,62 @@ Proof.
   - intros id h Hin. unfold keep_hashes in Hin. apply filter_In in Hin. destruct Hin as [Hin K]. cbn [fst] in K.
     destruct (C1 id h Hin) as (u & lit & Hr & E). exists u, lit. split; [|assumption].
     unfold keep_rows. apply filter_In. split; [assumption | exact K].
-  - intros r Hr. unfold keep_rows in Hr. apply filter_In in Hr. destruct Hr as [Hr K].
-    specialize (C2 r Hr). apply knownb_in in C2. destruct C2 as (id & Hin).
+  - intros r h Hr Eh. unfold keep_rows in Hr. apply filter_In in Hr. destruct Hr as [Hr K].
+    pose proof (C2 r h Hr Eh) as Kn. apply knownb_in in Kn. destruct Kn as (id & Hin).
     destruct (C1 id _ Hin) as (u & lit & Hr2 & E).
-    assert (r = (u, (id, lit))).
-    { apply (nodup_map_inj _ _ (fun r => hash (row_lit r)) R); [assumption | assumption | assumption|]. exact E. }
+    assert (r = (u, (id, lit))) by (apply (nodup_hashes_inj R _ _ h); assumption).
     subst r. apply knownb_in. exists id. unfold keep_hashes. apply filter_In. split; [assumption | exact K].
-  - unfold keep_rows. apply nodup_map_filter. assumption.
+  - unfold keep_rows. apply nodup_hashes_filter. assumption.
 Qed.
 
 Lemma knownb_app : forall h a b, knownb h (a ++ b) = knownb h a || knownb h b.
 Proof. intros. unfold knownb. apply existsb_app. Qed.
-Lemma wfC2_add : forall R H u id lit, wfC2 R H -> knownb (hash lit) H = false ->
-  wfC2 (R ++ [(u, (id, lit))]) (H ++ [(id, hash lit)]).
+Lemma wfC2_add : forall R H u id lit, wfC2 R H -> (forall h, key lit = Some h -> knownb h H = false) ->
+  wfC2 (R ++ [(u, (id, lit))]) (H ++ entry_of id lit).
 Proof.
   intros R H u id lit [C1 C2 C3] K. constructor.
-  - intros i h Hin. apply in_app_or in Hin. destruct Hin as [Hin|[Hin|[]]].
+  - intros i h Hin. apply in_app_or in Hin. destruct Hin as [Hin|Hin].
     + destruct (C1 i h Hin) as (u' & l' & Hr & E). exists u', l'. split; [apply in_or_app; left; assumption | assumption].
-    + inversion Hin; subst. exists u, lit. split; [apply in_or_app; right; left; reflexivity | reflexivity].
-  - intros r Hr. rewrite knownb_app. apply in_app_or in Hr. destruct Hr as [Hr|[<-|[]]].
-    + rewrite (C2 r Hr). reflexivity.
-    + unfold row_lit. cbn [snd knownb existsb]. rewrite N.eqb_refl. cbn [orb]. apply orb_true_r.
-  - rewrite map_app. cbn [map]. apply nodup_snoc; [assumption|].
-    intro Hin. apply in_map_iff in Hin. destruct Hin as (r & E & Hr). specialize (C2 r Hr).
-    unfold row_lit in *. cbn [snd] in E. rewrite E in C2. congruence.
+    + unfold entry_of in Hin. destruct (key lit) as [h0|] eqn:E; [|contradiction]. destruct Hin as [Hin|[]].
+      inversion Hin; subst. exists u, lit. split; [apply in_or_app; right; left; reflexivity | assumption].
+  - intros r h Hr Eh. rewrite knownb_app. apply in_app_or in Hr. destruct Hr as [Hr|[<-|[]]].
+    + rewrite (C2 r h Hr Eh). reflexivity.
+    + unfold row_lit in Eh. cbn [snd] in Eh. unfold entry_of. rewrite Eh. cbn [knownb existsb snd]. rewrite N.eqb_refl.
+      cbn [orb]. apply orb_true_r.
+  - rewrite hashes_of_app. unfold hashes_of at 2. cbn [flat_map]. rewrite app_nil_r. unfold row_hashes, row_lit. cbn [snd].
+    destruct (key lit) as [h|] eqn:E; [|rewrite app_nil_r; assumption].
+    apply nodup_snoc; [assumption|]. intro Hin. apply in_hashes_of in Hin. destruct Hin as (r & Hr & Er).
+    pose proof (C2 r h Hr Er) as Kn. rewrite (K h eq_refl) in Kn. discriminate.
 Qed.
 
 (* rebuilding the map from the rows (newUser) *)
 Definition rebuild_step (acc : list (N * N)) (r : row) : list (N * N) :=
-  if existsb (fun e => N.eqb (snd e) (hash (snd (snd r)))) acc then acc else acc ++ [(fst (snd r), hash (snd (snd r)))].
+  match key (snd (snd r)) with
+  | None => acc
+  | Some h => if existsb (fun e => N.eqb (snd e) h) acc then acc else acc ++ [(fst (snd r), h)]
+  end.
 Lemma rebuild_fold : forall rows acc,
   let res := fold_left rebuild_step rows acc in
-  (forall id h, In (id, h) res -> In (id, h) acc \/ exists u lit, In (u, (id, lit)) rows /\ h = hash lit) /\
+  (forall id h, In (id, h) res -> In (id, h) acc \/ exists u lit, In (u, (id, lit)) rows /\ key lit = Some h) /\
   (forall h, knownb h acc = true -> knownb h res = true) /\
-  (forall r, In r rows -> knownb (hash (row_lit r)) res = true).
+  (forall r h, In r rows -> key (row_lit r) = Some h -> knownb h res = true).
 Proof.
   induction rows as [|r t IH]; intro acc; cbn [fold_left].
-  - split; [intros; left; assumption|]. split; [trivial | intros r []].
+  - split; [intros; left; assumption|]. split; [trivial | intros r h []].
   - specialize (IH (rebuild_step acc r)). cbv zeta in IH. destruct IH as (I1 & I2 & I3). split; [|split].
     + intros id h Hin. destruct (I1 id h Hin) as [A|(u & lit & A & B)].
-      * unfold rebuild_step in A. destruct (existsb _ acc); [left; assumption|].
+      * unfold rebuild_step in A. destruct (key (snd (snd r))) as [h0|] eqn:Eh; [|left; assumption].
+        destruct (existsb _ acc); [left; assumption|].
         apply in_app_or in A. destruct A as [A|[A|[]]]; [left; assumption|]. inversion A; subst.
-        right. destruct r as [u [i l]]. exists u, l. split; [left; reflexivity | reflexivity].
+        right. destruct r as [u [i l]]. exists u, l. split; [left; reflexivity | exact Eh].
       * right. exists u, lit. split; [right; assumption | assumption].
-    + intros h K. apply I2. unfold rebuild_step. destruct (existsb _ acc); [assumption|]. rewrite knownb_app, K. reflexivity.
-    + intros r0 [<-|Hr]; [|apply I3; assumption]. apply I2. unfold rebuild_step, row_lit.
-      destruct (existsb (fun e => N.eqb (snd e) (hash (snd (snd r)))) acc) eqn:E; [exact E|].
+    + intros h K. apply I2. unfold rebuild_step. destruct (key (snd (snd r))); [|assumption].
+      destruct (existsb _ acc); [assumption|]. rewrite knownb_app, K. reflexivity.
+    + intros r0 h [<-|Hr] Eh; [|eapply I3; eassumption]. apply I2. unfold rebuild_step. unfold row_lit in Eh. rewrite Eh.
+      destruct (existsb (fun e => N.eqb (snd e) h) acc) eqn:E; [exact E|].
       rewrite knownb_app. cbn [knownb existsb snd]. rewrite N.eqb_refl. cbn [orb]. apply orb_true_r.
 Qed.
-Lemma wfC2_rebuild : forall R H, wfC2 R H -> wfC2 R (rebuild_hashes hash R).
+Lemma wfC2_rebuild : forall R H, wfC2 R H -> wfC2 R (rebuild_hashes hash fx R).
 Proof.
   intros R H [_ _ C3]. unfold rebuild_hashes. pose proof (rebuild_fold R []) as F. cbv zeta in F.
   change (fun (acc : list (N * N)) (r : row) => _) with rebuild_step. destruct F as (F1 & _ & F3). constructor.
@@ -121,9 +158,9 @@ Qed.
 Inductive rchange (ad : bool) (s s' : store) : Prop :=
 | rc_same : rec_rows s' = rec_rows s -> s_hashes s' = s_hashes s -> rchange ad s s'
 | rc_remove : forall ids, rec_rows s' = keep_rows ids (rec_rows s) -> s_hashes s' = keep_hashes ids (s_hashes s) -> rchange ad s s'
-| rc_add : forall u id lit, ad = true -> knownb (hash lit) (s_hashes s) = false ->
-    rec_rows s' = rec_rows s ++ [(u, (id, lit))] -> s_hashes s' = s_hashes s ++ [(id, hash lit)] -> rchange ad s s'
-| rc_rebuild : rec_rows s' = rec_rows s -> s_hashes s' = rebuild_hashes hash (rec_rows s) -> rchange ad s s'.
+| rc_add : forall u id lit, ad = true -> (forall h, key lit = Some h -> knownb h (s_hashes s) = false) ->
+    rec_rows s' = rec_rows s ++ [(u, (id, lit))] -> s_hashes s' = s_hashes s ++ entry_of id lit -> rchange ad s s'
+| rc_rebuild : rec_rows s' = rec_rows s -> s_hashes s' = rebuild_hashes hash fx (rec_rows s) -> rchange ad s s'.
 
 Lemma wfC_rchange : forall ad s s', wfC s -> rchange ad s s' -> wfC s'.
 Proof.
@@ -229,27 +266,37 @@ Proof.
   apply (IH bm s1 s' b); [apply (good_db_add c _ _ s s1 W D) | intros q Hq; apply Hp; right; assumption | assumption].
 Qed.
 
-Variable fx : codefacts.
 Variable c : cfg.
 Variable clock : nat -> Z.
 Notation step' := (step hash fx c clock).
 
 Lemma hash_known_knownb : forall h s, hash_known h s = knownb h (s_hashes s).
 Proof. reflexivity. Qed.
+Lemma hash_entry_entry_of : forall id lit, hash_entry hash fx id lit = entry_of id lit.
+Proof. reflexivity. Qed.
+Lemma lit_known_false : forall lit s, lit_known hash fx lit s = false -> forall h, key lit = Some h -> knownb h (s_hashes s) = false.
+Proof. intros lit s K h E. unfold lit_known in K. rewrite E in K. exact K. Qed.
 
-Lemma rchange_recover : forall s lit, wf s -> rchange true s (fst (recover hash s lit)).
+(* the rows of the recovery mailbox after inserting one message there *)
+Lemma rec_rows_recover_ins : forall s x id lit, wf s -> s_mboxes x = s_mboxes s ->
+  exists u, rec_rows (ins_msgs recov_id [(id, lit)] x) = rec_rows s ++ [(u, (id, lit))].
 Proof.
-  intros s lit W. unfold recover. destruct (hash_known (hash lit) s) eqn:K; cbn [fst]; [apply rc_same; reflexivity|].
-  destruct (wf_recov _ _ _ W) as (mr & Fr & Ir). destruct (find_name_in _ _ _ Fr) as [Hin _].
-  pose proof (find_id_nodup _ mr (wf_nodup _ _ _ W) Hin) as F. rewrite Ir in F.
-  apply (rc_add true s _ (mb_seq mr + 1) (s_nextmsg s) lit); [reflexivity | exact K | |].
-  - unfold rec_rows, ins_msgs. cbn [set_hashes bump_msg s_mboxes]. rewrite F. cbn [add_log set_mboxes s_mboxes].
-    rewrite find_id_upd by reflexivity. rewrite F. destruct (find_id_in _ _ _ F) as [_ E]. rewrite E, N.eqb_refl.
-    cbn [mb_ins mb_rows assign]. reflexivity.
-  - unfold ins_msgs. cbn [set_hashes bump_msg s_mboxes]. rewrite F. reflexivity.
+  intros s x id lit W Ex. destruct (wf_recov _ _ _ W) as (mr & Fr & Ir). destruct (find_name_in _ _ _ Fr) as [Hin _].
+  pose proof (find_id_nodup _ mr (wf_nodup _ _ _ W) Hin) as F. rewrite Ir in F. exists (mb_seq mr + 1).
+  unfold rec_rows, ins_msgs. rewrite Ex, F. cbn [add_log set_mboxes s_mboxes].
+  rewrite find_id_upd by reflexivity. rewrite F. destruct (find_id_in _ _ _ F) as [_ E]. rewrite E, N.eqb_refl.
+  cbn [mb_ins mb_rows assign]. reflexivity.
 Qed.
-Lemma rchange_recover_res : forall s lit, wf s -> rchange true s (fst (recover_res hash s lit)).
-Proof. intros s lit W. unfold recover_res. pose proof (rchange_recover s lit W) as H. destruct (recover hash s lit). exact H. Qed.
+
+Lemma rchange_recover : forall s lit, wf s -> rchange true s (fst (recover hash fx s lit)).
+Proof.
+  intros s lit W. unfold recover. destruct (lit_known hash fx lit s) eqn:K; cbn [fst]; [apply rc_same; reflexivity|].
+  destruct (rec_rows_recover_ins s (set_hashes (s_hashes s ++ hash_entry hash fx (s_nextmsg s) lit) (bump_msg 1 s)) (s_nextmsg s) lit W eq_refl) as (u & Q).
+  apply (rc_add true s _ u (s_nextmsg s) lit); [reflexivity | apply lit_known_false; exact K | exact Q |].
+  unfold ins_msgs. cbn [set_hashes bump_msg s_mboxes]. destruct (find_id recov_id (s_mboxes s)); reflexivity.
+Qed.
+Lemma rchange_recover_res : forall s lit, wf s -> rchange true s (fst (recover_res hash fx s lit)).
+Proof. intros s lit W. unfold recover_res. pose proof (rchange_recover s lit W) as H. destruct (recover hash fx s lit). exact H. Qed.
 Lemma rchange_limit_refuse : forall s lit, wf s -> rchange (negb (cf_limit_norecover fx)) s (fst (limit_refuse hash fx s lit)).
 Proof.
   intros s lit W. unfold limit_refuse. destruct (cf_limit_norecover fx); cbn [fst negb]; [apply rc_same; reflexivity | apply rchange_recover; assumption].
@@ -437,59 +484,140 @@ Proof.
   apply IH; [apply (good_step_op hash fx c clock s o W) | assumption | apply wfC_step; assumption].
 Qed.
 
-(* ---------- rejected => recovered exactly once ---------- *)
-Definition count_hash (h : N) (R : list row) : nat := length (filter (fun r => N.eqb (hash (row_lit r)) h) R).
+(* ---------- rejected => recovered ---------- *)
+Definition has_hash (h : N) (r : row) : bool := match key (row_lit r) with Some x => N.eqb x h | None => false end.
+Definition count_hash (h : N) (R : list row) : nat := length (filter (has_hash h) R).
 Definition count_lit (l : N) (R : list row) : nat := length (filter (fun r => N.eqb (row_lit r) l) R).
 
-Lemma count_hash_none : forall h R, (forall r, In r R -> hash (row_lit r) <> h) -> count_hash h R = 0%nat.
+Lemma has_hash_true : forall h r, has_hash h r = true <-> key (row_lit r) = Some h.
+Proof.
+  intros h r. unfold has_hash. destruct (key (row_lit r)) as [x|]; split; intro E; try discriminate.
+  - apply N.eqb_eq in E. subst. reflexivity.
+  - inversion E. apply N.eqb_refl.
+Qed.
+Lemma count_hash_none : forall h R, (forall r, In r R -> key (row_lit r) <> Some h) -> count_hash h R = 0%nat.
 Proof.
   intros h R H. unfold count_hash. induction R as [|x t IH]; cbn [filter length]; [reflexivity|].
-  destruct (N.eqb (hash (row_lit x)) h) eqn:E; [apply N.eqb_eq in E; exfalso; apply (H x); [left; reflexivity | assumption]|].
+  destruct (has_hash h x) eqn:E; [apply has_hash_true in E; exfalso; apply (H x); [left; reflexivity | assumption]|].
   apply IH. intros r Hr. apply H. right. assumption.
 Qed.
-Lemma count_hash_nodup : forall h R r, NoDup (map (fun r => hash (row_lit r)) R) -> In r R -> hash (row_lit r) = h -> count_hash h R = 1%nat.
+Lemma count_hash_nodup : forall h R r, NoDup (hashes_of R) -> In r R -> key (row_lit r) = Some h -> count_hash h R = 1%nat.
 Proof.
   intros h R. induction R as [|x t IH]; intros r Hn Hr E; [contradiction|].
-  cbn [map] in Hn. inversion Hn as [|? ? Hx Ht]; subst. unfold count_hash. cbn [filter].
-  destruct Hr as [<-|Hr].
-  - rewrite N.eqb_refl. cbn [length]. f_equal. apply count_hash_none. intros r Hr E. apply Hx. rewrite <- E. apply in_map_iff. exists r. split; [reflexivity | assumption].
-  - destruct (N.eqb (hash (row_lit x)) (hash (row_lit r))) eqn:E.
-    + apply N.eqb_eq in E. exfalso. apply Hx. rewrite E. apply in_map_iff. exists r. split; [reflexivity | assumption].
-    + apply (IH r Ht Hr eq_refl).
+  assert (Ht : NoDup (hashes_of t)).
+  { change (hashes_of (x :: t)) with (row_hashes x ++ hashes_of t) in Hn. apply nodup_app_r in Hn. assumption. }
+  unfold count_hash. cbn [filter]. destruct (has_hash h x) eqn:Ex.
+  - apply has_hash_true in Ex. cbn [length]. f_equal. apply count_hash_none. intros y Hy Ey.
+    assert (x = y) by (apply (nodup_hashes_inj (x :: t) x y h); [assumption | left; reflexivity | right; assumption | assumption | assumption]).
+    subst y. change (hashes_of (x :: t)) with (row_hashes x ++ hashes_of t) in Hn. unfold row_hashes in Hn. rewrite Ex in Hn.
+    cbn [app] in Hn. inversion Hn as [|? ? N1 _]; subst. apply N1. apply in_hashes_of. exists x. split; assumption.
+  - destruct Hr as [<-|Hr]; [apply has_hash_true in E; congruence|]. apply (IH r Ht Hr E).
 Qed.
 Lemma count_hash_app : forall h a b, count_hash h (a ++ b) = (count_hash h a + count_hash h b)%nat.
 Proof. intros. unfold count_hash. rewrite filter_app, app_length. reflexivity. Qed.
 
-(* the remote was asked and rejected (not for size): the literal's hash is in the recovery mailbox exactly once *)
-Lemma rejected_recovered_once_hash : forall s n lit m, wf s -> wfC s -> is_recov n = false ->
-  find_name n (s_mboxes s) = Some m -> room c m 1 = true ->
-  (snd (op_append hash fx c s n lit RemFail) = ResNo \/ snd (op_append hash fx c s n lit RemFail) = ResNoKnown) /\
-  count_hash (hash lit) (rec_rows (fst (op_append hash fx c s n lit RemFail))) = 1%nat.
+Lemma op_append_rejected : forall s n lit m, wf s -> is_recov n = false -> find_name n (s_mboxes s) = Some m -> room c m 1 = true ->
+  op_append hash fx c s n lit RemFail = recover_res hash fx s lit.
 Proof.
-  intros s n lit m W [C1 C2 C3] Rn F Rm. unfold op_append. rewrite Rn, F. unfold append_check. rewrite Rm.
-  unfold append_write. rewrite (find_id_of_name s W n m F). rewrite Rm. cbn [negb]. rewrite andb_false_r.
-  unfold recover_res, recover. rewrite hash_known_knownb. destruct (knownb (hash lit) (s_hashes s)) eqn:K; cbn [fst snd].
-  - split; [right; reflexivity|]. apply knownb_in in K. destruct K as (id & Hin). destruct (C1 id _ Hin) as (u & l & Hr & E).
-    apply (count_hash_nodup _ _ (u, (id, l))); [assumption | assumption | symmetry; exact E].
+  intros s n lit m W Rn F Rm. unfold op_append. rewrite Rn, F. unfold append_check. rewrite Rm.
+  unfold append_write. rewrite (find_id_of_name s W n m F). rewrite Rm. cbn [negb]. rewrite andb_false_r. reflexivity.
+Qed.
+
+(* the remote was asked and rejected (not for size), the literal has a hash: that hash is in the recovery mailbox
+   exactly once afterwards *)
+Lemma rejected_recovered_once_hash : forall s n lit m h, wf s -> wfC s -> is_recov n = false ->
+  find_name n (s_mboxes s) = Some m -> room c m 1 = true -> key lit = Some h ->
+  (snd (op_append hash fx c s n lit RemFail) = ResNo \/ snd (op_append hash fx c s n lit RemFail) = ResNoKnown) /\
+  count_hash h (rec_rows (fst (op_append hash fx c s n lit RemFail))) = 1%nat.
+Proof.
+  intros s n lit m h W [C1 C2 C3] Rn F Rm Eh. rewrite (op_append_rejected s n lit m W Rn F Rm).
+  unfold recover_res, recover. destruct (lit_known hash fx lit s) eqn:K; cbn [fst snd].
+  - split; [right; reflexivity|]. unfold lit_known in K. rewrite Eh, hash_known_knownb in K.
+    apply knownb_in in K. destruct K as (id & Hin). destruct (C1 id _ Hin) as (u & l & Hr & E).
+    apply (count_hash_nodup _ _ (u, (id, l))); [assumption | assumption | exact E].
   - split; [left; reflexivity|].
-    destruct (wf_recov _ _ _ W) as (mr & Fr & Ir). destruct (find_name_in _ _ _ Fr) as [Hin _].
-    pose proof (find_id_nodup _ mr (wf_nodup _ _ _ W) Hin) as Fi. rewrite Ir in Fi.
-    assert (Q : rec_rows (ins_msgs recov_id [(s_nextmsg s, lit)] (set_hashes (s_hashes s ++ [(s_nextmsg s, hash lit)]) (bump_msg 1 s)))
-                = rec_rows s ++ [(mb_seq mr + 1, (s_nextmsg s, lit))]).
-    { unfold rec_rows, ins_msgs. cbn [set_hashes bump_msg s_mboxes]. rewrite Fi. cbn [add_log set_mboxes s_mboxes].
-      rewrite find_id_upd by reflexivity. rewrite Fi. destruct (find_id_in _ _ _ Fi) as [_ E]. rewrite E, N.eqb_refl. reflexivity. }
+    destruct (rec_rows_recover_ins s (set_hashes (s_hashes s ++ hash_entry hash fx (s_nextmsg s) lit) (bump_msg 1 s)) (s_nextmsg s) lit W eq_refl) as (u & Q).
     rewrite Q, count_hash_app. rewrite count_hash_none.
-    + unfold count_hash. cbn [filter]. unfold row_lit. cbn [snd]. rewrite N.eqb_refl. reflexivity.
-    + intros r Hr E. specialize (C2 r Hr). rewrite E in C2. congruence.
+    + unfold count_hash. cbn [filter]. unfold has_hash, row_lit. cbn [snd]. rewrite Eh, N.eqb_refl. reflexivity.
+    + intros r Hr E. pose proof (C2 r h Hr E) as Kn. rewrite (lit_known_false lit s K h Eh) in Kn. discriminate.
+Qed.
+
+(* the literal has no hash: it is stored, always (never answered "known") *)
+Lemma rejected_hashless_stored : forall s n lit m, wf s -> is_recov n = false ->
+  find_name n (s_mboxes s) = Some m -> room c m 1 = true -> key lit = None ->
+  snd (op_append hash fx c s n lit RemFail) = ResNo /\
+  exists u id, rec_rows (fst (op_append hash fx c s n lit RemFail)) = rec_rows s ++ [(u, (id, lit))].
+Proof.
+  intros s n lit m W Rn F Rm Eh. rewrite (op_append_rejected s n lit m W Rn F Rm).
+  unfold recover_res, recover, lit_known. rewrite Eh. cbn [fst snd]. split; [reflexivity|].
+  destruct (rec_rows_recover_ins s (set_hashes (s_hashes s ++ hash_entry hash fx (s_nextmsg s) lit) (bump_msg 1 s)) (s_nextmsg s) lit W eq_refl) as (u & Q).
+  exists u, (s_nextmsg s). exact Q.
+Qed.
+
+(* every rejected APPEND is recoverable: afterwards the recovery mailbox holds the literal itself or a message with
+   the literal's hash *)
+Lemma rejected_recoverable : forall s n lit m, wf s -> wfC s -> is_recov n = false ->
+  find_name n (s_mboxes s) = Some m -> room c m 1 = true ->
+  exists r, In r (rec_rows (fst (op_append hash fx c s n lit RemFail))) /\
+            (row_lit r = lit \/ exists h, key lit = Some h /\ key (row_lit r) = Some h).
+Proof.
+  intros s n lit m W C Rn F Rm. destruct (key lit) as [h|] eqn:Eh.
+  - destruct (rejected_recovered_once_hash s n lit m h W C Rn F Rm Eh) as [_ Cnt].
+    unfold count_hash in Cnt.
+    destruct (filter (has_hash h) (rec_rows (fst (op_append hash fx c s n lit RemFail)))) as [|r t] eqn:Fl; [discriminate|].
+    assert (Hin : In r (filter (has_hash h) (rec_rows (fst (op_append hash fx c s n lit RemFail))))) by (rewrite Fl; left; reflexivity).
+    apply filter_In in Hin. destruct Hin as [Hin Hh]. exists r. split; [assumption|]. right. exists h. split; [reflexivity|].
+    apply has_hash_true. assumption.
+  - destruct (rejected_hashless_stored s n lit m W Rn F Rm Eh) as [_ (u & id & Q)].
+    exists (u, (id, lit)). split; [rewrite Q; apply in_or_app; right; left; reflexivity | left; reflexivity].
 Qed.
 
 (* if the hash identifies the literal, "once per distinct message" holds literally *)
-Lemma count_lit_hash : forall l R, (forall a b, hash a = hash b -> a = b) -> count_lit l R = count_hash (hash l) R.
+Lemma count_lit_hash : forall l h R, (forall a b x, key a = Some x -> key b = Some x -> a = b) -> key l = Some h ->
+  count_lit l R = count_hash h R.
 Proof.
-  intros l R Inj. unfold count_lit, count_hash. f_equal. apply filter_ext. intro r.
+  intros l h R Inj Eh. unfold count_lit, count_hash. f_equal. apply filter_ext. intro r.
   destruct (N.eqb (row_lit r) l) eqn:E.
-  - apply N.eqb_eq in E. rewrite E, N.eqb_refl. reflexivity.
-  - apply N.eqb_neq in E. symmetry. apply N.eqb_neq. intro Q. apply E. apply Inj. assumption.
+  - apply N.eqb_eq in E. symmetry. apply has_hash_true. rewrite E. assumption.
+  - apply N.eqb_neq in E. destruct (has_hash h r) eqn:E2; [|reflexivity].
+    apply has_hash_true in E2. exfalso. apply E. eapply Inj; eassumption.
+Qed.
+
+(* ---------- with the raw-bytes fallback every literal has a key ---------- *)
+Lemma key_total : cf_raw_fallback fx = true -> forall lit, exists k, key lit = Some k.
+Proof. intros Fr lit. unfold dkey. destruct (hash lit) as [h|]; [eexists; reflexivity|]. rewrite Fr. eexists. reflexivity. Qed.
+Lemma key_raw : cf_raw_fallback fx = true -> forall lit, hash lit = None -> key lit = Some (2 * lit + 1)%N.
+Proof. intros Fr lit E. unfold dkey. rewrite E, Fr. reflexivity. Qed.
+(* a raw key identifies the literal and never equals a content-hash key *)
+Lemma key_raw_inj : forall lit l', hash lit = None -> key l' = Some (2 * lit + 1)%N -> l' = lit.
+Proof.
+  intros lit l' E K. unfold dkey in K. destruct (hash l') as [h|].
+  - assert (K' : (2 * h = 2 * lit + 1)%N) by congruence. lia.
+  - destruct (cf_raw_fallback fx); [|discriminate]. assert (K' : (2 * l' + 1 = 2 * lit + 1)%N) by congruence. lia.
+Qed.
+
+(* once per distinct message, for EVERY literal, in terms of the key *)
+Lemma rejected_recovered_once_key : forall s n lit m, cf_raw_fallback fx = true -> wf s -> wfC s -> is_recov n = false ->
+  find_name n (s_mboxes s) = Some m -> room c m 1 = true ->
+  exists k, key lit = Some k /\
+    (snd (op_append hash fx c s n lit RemFail) = ResNo \/ snd (op_append hash fx c s n lit RemFail) = ResNoKnown) /\
+    count_hash k (rec_rows (fst (op_append hash fx c s n lit RemFail))) = 1%nat.
+Proof.
+  intros s n lit m Fr W C Rn F Rm. destruct (key_total Fr lit) as (k & Ek). exists k. split; [exact Ek|].
+  exact (rejected_recovered_once_hash s n lit m k W C Rn F Rm Ek).
+Qed.
+(* a literal whose content hash cannot be computed is in the recovery mailbox exactly once - literally *)
+Lemma rejected_hashless_once : forall s n lit m, cf_raw_fallback fx = true -> wf s -> wfC s -> is_recov n = false ->
+  find_name n (s_mboxes s) = Some m -> room c m 1 = true -> hash lit = None ->
+  count_lit lit (rec_rows (fst (op_append hash fx c s n lit RemFail))) = 1%nat.
+Proof.
+  intros s n lit m Fr W C Rn F Rm Eh. pose proof (key_raw Fr lit Eh) as Ek.
+  destruct (rejected_recovered_once_hash s n lit m _ W C Rn F Rm Ek) as [_ Cnt]. rewrite <- Cnt.
+  unfold count_lit, count_hash. f_equal. apply filter_ext. intro r.
+  destruct (N.eqb (row_lit r) lit) eqn:E.
+  - apply N.eqb_eq in E. symmetry. apply has_hash_true. rewrite E. exact Ek.
+  - apply N.eqb_neq in E. destruct (has_hash (2 * lit + 1)%N r) eqn:E2; [|reflexivity].
+    apply has_hash_true in E2. exfalso. apply E. apply (key_raw_inj lit (row_lit r) Eh E2).
 Qed.
 
 (* ---------- the recovery mailbox is protected against client commands ---------- *)
